@@ -7,7 +7,7 @@ import itertools
 
 from hypothesis import strategies as st
 
-from .base import (Spec, components, connected, draw_board, draw_rooms, flat_bools, flat_sol, has_2x2,
+from .base import (Spec, TooBig, components, connected, draw_board, draw_rooms, flat_bools, flat_sol, has_2x2,
                    mask_cells, neighbors4)
 
 
@@ -818,8 +818,8 @@ def tetromino_class(cells):
 
 class Lits(Spec):
     name = "lits"
-    max_cells_quick = 16
-    max_cells_thorough = 20
+    max_cells_quick = 25
+    max_cells_thorough = 30
 
     def instance(self, draw, max_cells):
         h, w = draw_board(draw, st, max_cells, min_side=1, max_side=8)
@@ -837,7 +837,14 @@ class Lits(Spec):
         # plant disjoint tetrominoes (random growth), then grow one room around each
         owner = {}
         k = 0
-        for _ in range(draw(st.integers(1, max(1, h * w // 4)))):
+        if h >= 3 and w >= 3 and draw(st.integers(0, 2)) == 0:
+            # a room that contains a whole plus shape (a T can then sit on a cell whose four neighbours
+            # all belong to its own room)
+            cy, cx = draw(st.integers(1, h - 2)), draw(st.integers(1, w - 2))
+            for c in ((cy, cx), (cy - 1, cx), (cy + 1, cx), (cy, cx - 1), (cy, cx + 1)):
+                owner[c] = 0
+            k = 1
+        for _ in range(draw(st.integers(1, max(1, h * w // draw(st.sampled_from([4, 6, 8])))))):
             free = [c for c in cells if c not in owner]
             if len(free) < 4:
                 break
@@ -879,9 +886,15 @@ class Lits(Spec):
         h, w = inst["h"], inst["w"]
         rooms = [[tuple(c) for c in r] for r in inst["rooms"]]
         per_room = []
+        total = 1
         for r in rooms:
+            if len(r) > 14:
+                raise TooBig()
             opts = [frozenset(s) for s in itertools.combinations(r, 4) if connected(s)]
             per_room.append(opts)
+            total *= max(1, len(opts))
+            if total > 40000:
+                raise TooBig()
         rid = {c: i for i, r in enumerate(rooms) for c in r}
         sols = []
         for combo in itertools.product(*per_room):
